@@ -666,6 +666,11 @@ class AttackGraph():
             child.parents.remove(node)
         for parent in node.parents:
             parent.children.remove(node)
+        for attacker in list(node.compromised_by):
+            attacker.undo_compromise(node)
+        for attacker in self.attackers:
+            if node in attacker.entry_points:
+                attacker.entry_points.remove(node)
         self.nodes.remove(node)
 
         if not isinstance(node.id, int):
